@@ -47,10 +47,8 @@ Lemma codec_entry_points_agree : ConcGen.codec_entry_points = expected_codec_ent
 Proof. vm_compute. reflexivity. Qed.
 
 (* ---- the census of mutable state (go/types; ConcStateGen.v) passes every check ---------- *)
-Lemma census_holds : census_ok = true.
-Proof. vm_compute. reflexivity. Qed.
 
-(* unfolded, the load-bearing parts by name *)
+(* the load-bearing parts by name first, so that a broken one is reported under its own name *)
 Lemma census_lf_writes_nothing :
   lf_writes_nothing ConcStateGen.lockfree_fns ConcStateGen.state_writes = true.
 Proof. vm_compute. reflexivity. Qed.
@@ -62,6 +60,9 @@ Lemma census_lf_reads_no_locked_field : lf_reads_no_locked_field ConcStateGen.lf
 Proof. vm_compute. reflexivity. Qed.
 
 Lemma census_holders : holders_hold_only_the_cache ConcStateGen.shared_fields = true.
+Proof. vm_compute. reflexivity. Qed.
+
+Lemma census_holds : census_ok = true.
 Proof. vm_compute. reflexivity. Qed.
 
 (* coverage in the usable direction: whatever function of the lock-free set one picks, it has
@@ -97,7 +98,7 @@ Definition w1_calls : list (list name) := [[1]; [1]].
 Definition w1_sched : list tid := [0; 0; 0; 1; 1]%nat.
 
 Lemma unguarded_refuted_root :
-  nth 1%nat (results (run Unguarded 3 w1_graph w1_calls w1_sched)) [] = [RErr] /\
+  nth 1%nat (results (run Unguarded 3 w1_graph w1_calls w1_sched)) [] = [RUnlinked] /\
   result_solo 3 w1_graph 1 = ROk (UNode 1 [UNode 2 []]) /\
   results (run Unguarded 3 w1_graph [[1]] [0; 0; 0; 0; 0; 0; 0]%nat) = [[result_solo 3 w1_graph 1]].
 Proof. repeat split; vm_compute; reflexivity. Qed.
